@@ -7,6 +7,7 @@ package metrics
 
 import (
 	"net/http"
+	"strings"
 
 	"github.com/prometheus/client_golang/prometheus"
 	"github.com/prometheus/common/expfmt"
@@ -47,9 +48,13 @@ func (h *storesHandler) serveKsmHTTP(w http.ResponseWriter, r *http.Request) {
 	// https://prometheus.io/docs/instrumenting/exposition_formats/#text-based-format
 	resHeader.Set("Content-Type", `text/plain; version=`+"0.0.4")
 
-	// Write KSM families
-	if err := metricsstore.NewMetricsWriter(h.stores...).WriteAll(w); err != nil {
-		log.Error(err, "Unable to write metrics")
+	// Write KSM families: one writer per group of stores holding the same families (e.g. one store per
+	// watched namespace). A MetricsWriter indexes every store with the headers of the first one, so stores
+	// of different resource kinds must not share a writer.
+	for _, stores := range h.groupStoresByFamilies() {
+		if err := metricsstore.NewMetricsWriter(stores...).WriteAll(w); err != nil {
+			log.Error(err, "Unable to write metrics")
+		}
 	}
 
 	// Write extra metrics
@@ -68,11 +73,35 @@ func (h *storesHandler) serveKsmHTTP(w http.ResponseWriter, r *http.Request) {
 
 func (h *storesHandler) RegisterStore(generators []generator.FamilyGenerator, expectedType interface{}, lw cache.ListerWatcher) error {
 	store := newMetricsStore(generators, expectedType, lw)
-	h.stores = append(h.stores, store)
+	h.addStore(generators, store)
 
 	return nil
 }
 
+func (h *storesHandler) addStore(generators []generator.FamilyGenerator, store *metricsstore.MetricsStore) {
+	h.stores = append(h.stores, store)
+	h.families = append(h.families, strings.Join(generator.ExtractMetricFamilyHeaders(generators), "\n"))
+}
+
+// groupStoresByFamilies returns the stores grouped by the metric families they hold, in registration order.
+func (h *storesHandler) groupStoresByFamilies() [][]*metricsstore.MetricsStore {
+	var groups [][]*metricsstore.MetricsStore
+	index := map[string]int{}
+	for i, store := range h.stores {
+		id, found := index[h.families[i]]
+		if !found {
+			id = len(groups)
+			index[h.families[i]] = id
+			groups = append(groups, nil)
+		}
+		groups[id] = append(groups[id], store)
+	}
+
+	return groups
+}
+
 type storesHandler struct {
 	stores []*metricsstore.MetricsStore
+	// families[i] identifies the metric families held by stores[i]
+	families []string
 }
